@@ -60,6 +60,7 @@ type Op struct {
 	Method   string   `json:"method"`
 	Which    string   `json:"which"`
 	Evicted  []string `json:"evicted,omitempty"` // op Evict (logged only): handles of the sessions a count prune removed
+	Via      string   `json:"via,omitempty"`     // "other": executed (and observed) through a second server on the same directory = another tool writing to the layout
 	Raw      *RawReq  `json:"raw,omitempty"`
 	NewCfg   *SrvCfg  `json:"newcfg,omitempty"`
 }
